@@ -149,7 +149,6 @@ spec fn loc_hash(loc: KeyLocation) -> u64 {
 /// representation invariant of a mapping
 spec fn rep_ok<V>(s: XMapping<V>) -> bool {
     &&& s.len == total(s.inner@)
-    &&& forall|h: u64| #[trigger] s.inner@.contains_key(h) ==> s.inner@[h]@.len() > 0
     &&& forall|h: u64, i: int| s.inner@.contains_key(h) && 0 <= i < s.inner@[h]@.len() ==> hashes_to(s.hash_func.value, (#[trigger] s.inner@[h]@[i]).0, h)
 }
 /// eq answers false for each of the first n keys
@@ -280,7 +279,6 @@ pub open spec fn vals_ok(a: Table<Val>, b: Table<Val>, ef: XValue, items: Seq<XR
 /// what the loop of with_update maintains about the table `m` / counter `len` built from the receiver's table `a`
 pub open spec fn inv(a: Table<Val>, hf: XValue, ef: XValue, m: Table<Val>, len: int, items: Seq<XResult<(Val, Val)>>, k: int) -> bool {
     &&& len == total(m)
-    &&& forall|h: u64| #[trigger] m.contains_key(h) ==> m[h]@.len() > 0
     &&& forall|h: u64, i: int| m.contains_key(h) && 0 <= i < m[h]@.len() ==> hashes_to(hf, (#[trigger] m[h]@[i]).0, h)
     &&& keys_retained(a, m)
     &&& forall|j: int| 0 <= j < k ==> is_item(items[j]) && present(m, hf, ef, item_of(#[trigger] items[j]).0)
